@@ -348,8 +348,9 @@ def drums(ctx):
     isset = True
   elif src is not None and len(r) == 1 and isinstance(r[0].value.args[0], ast.SetComp):
     isset = False   # a set of 2**i values would also do, but then the summed expression is the set itself
+  located = src is not None and any(isinstance(x, ast.BinOp) and isinstance(x.op, ast.Pow) and U.const_value(x.left) == 2 for x in ast.walk(r[0].value)) if len(r) == 1 else False
   ctx.ob('INV/drums-type-set', enc, r[0] if r else enc.node, isset, 'the drum types are de-duplicated (a set) before their bits are summed' if isset else
-         'the drum types whose bits are summed are not collected in a set: two pitches of one drum type add 2**type twice and carry into another bit', construct='sum(2**i) over a set of types')
+         'the drum types whose bits are summed are not collected in a set: two pitches of one drum type add 2**type twice and carry into another bit', construct='sum(2**i) over a set of types', definite=located)
   txt = norm_text(dec.node)
   ok = 'reversed(str(bin(' in txt and "== '1'" in txt and 'self._drum_map[' in txt and '[0]' in txt
   ctx.ob('INV/drums-decode', dec, dec.node, ok, 'decode reads the bits from the least significant end and takes the first pitch of each type' if ok else
